@@ -65,6 +65,7 @@ type PathResult struct {
 	Events     []Event
 	PCSnapshot []*Term
 	Tags       []string
+	Race       struct{ sharedObjs, candidatePairs, queries, discharged int }
 }
 
 type ViolationCase struct {
@@ -98,6 +99,7 @@ type RunResult struct {
 	FeasQ      int
 	AssertQ    int
 	CacheHits  int
+	RaceShared, RacePairs, RaceQueries, RaceDischarged int
 	Solver     SolverStats
 	Fns        map[string]int
 	Wall       time.Duration
@@ -225,6 +227,9 @@ func (in *Interp) runPath(h *ssa.Function, prefix []Decision, sample bool) (res 
 			}
 			rc := in.buildCase(h.Name(), v.Model)
 			rc.ExpectFail = []string{v.Label}
+			if v.Kind == "race" {
+				rc.ExpectFail = nil
+			}
 			res.Violations = append(res.Violations, ViolationCase{Label: v.Label, Kind: v.Kind, Msg: v.Msg, Case: rc})
 		}
 	}
@@ -281,7 +286,25 @@ func (in *Interp) runPath(h *ssa.Function, prefix []Decision, sample bool) (res 
 	in.callFn(h, nil, nil)
 	in.traceOn = false
 	res.Outcome = "ok"
-	if sample || in.cfg.Trace {
+	if in.cfg.Trace {
+		for _, rf := range in.raceCheck(in.events) {
+			label := "data-race"
+			in.violCount[label]++
+			if in.violCount[label] > in.cfg.ViolCap {
+				in.violations = append(in.violations, Violation{Label: label, Kind: "race", Msg: rf.Desc})
+				continue
+			}
+			if m, ok := in.model(); ok {
+				in.violations = append(in.violations, Violation{Label: label, Model: m, Kind: "race", Msg: rf.Desc})
+			}
+		}
+		if len(in.violations) > 0 {
+			sample = false // a racy path is reported as a violation, not validated as race-free
+		}
+		res.Race = in.raceStats
+		in.raceStats = struct{ sharedObjs, candidatePairs, queries, discharged int }{}
+	}
+	if sample {
 		if m, ok := in.model(); ok {
 			rc := in.buildCase(h.Name(), m)
 			for _, o := range in.observes {
@@ -380,7 +403,7 @@ func Explore(ld *Loaded, cfg *Config) *RunResult {
 					return
 				}
 				defer sv.Close()
-				in := &Interp{prog: ld.prog, ld: ld, tt: tt, solver: sv, cfg: cfg, maxSteps: cfg.MaxSteps, qcache: map[string]string{}, ecache: map[string][]int64{}, violCount: map[string]int{}, fnInfos: map[*ssa.Function]*fnInfo{}, fnMetas: map[*ssa.Function]*fnMeta{}, varCache: map[int][]int{}, varIDs: map[string]int{}}
+				in := &Interp{prog: ld.prog, ld: ld, tt: tt, solver: sv, cfg: cfg, maxSteps: cfg.MaxSteps, qcache: map[string]string{}, ecache: map[string][]int64{}, violCount: map[string]int{}, raceCache: map[string]string{}, fnInfos: map[*ssa.Function]*fnInfo{}, fnMetas: map[*ssa.Function]*fnMeta{}, varCache: map[int][]int{}, varIDs: map[string]int{}}
 				for {
 					mu.Lock()
 					for len(work) == 0 && active > 0 && !stop {
@@ -408,6 +431,10 @@ func Explore(ld *Loaded, cfg *Config) *RunResult {
 					hs.Paths++
 					hs.Transitions += res.NDecisions
 					hs.Steps += res.Steps
+					rr.RaceShared += res.Race.sharedObjs
+					rr.RacePairs += res.Race.candidatePairs
+					rr.RaceQueries += res.Race.queries
+					rr.RaceDischarged += res.Race.discharged
 					for l, n := range res.Asserts {
 						hs.Asserts[l] += n
 					}
